@@ -9,5 +9,6 @@ import (
 	_ "fxmc/props/c05"
 	_ "fxmc/props/c06"
 	_ "fxmc/props/c07"
+	_ "fxmc/props/c11"
 	_ "fxmc/props/c13"
 )
